@@ -74,6 +74,50 @@ def gen_cases(ctx, tup):
         yield type(c).__name__.replace("Command", "").lower(), c
 
 
+def exhaustive_transmit(ctx, model, tup, cov):
+    """thorough tier: EVERY subset of the 12 own + 9 placement optional fields of TransmitCommand (2^21 presence
+    patterns, one value each), in shards."""
+    gc = tup.graphics_command
+    g = cmdcodec.Gen(ctx.rng, gc)
+    tmpl = gc.GraphicsCommand.DEFAULT_TEMPLATE
+    fields = [("T", f) for f in g.FIELDS_T] + [("P", f) for f in g.FIELDS_P]
+    n = len(fields)
+    shard = []
+    total = 0
+
+    def flush():
+        nonlocal shard, total
+        if not shard:
+            return
+        reqs = []
+        for toks, esc in shard:
+            ts = " ".join(toks)
+            reqs.append("cmd.to_bytes 0 " + ts)
+            reqs.append(f"cmd.conforms {hexs(esc)} " + ts)
+        reps = model.batch(reqs)
+        for i, (toks, esc) in enumerate(shard):
+            if unhex(reps[2 * i]) != esc:
+                ctx.corr_breaks.append({"what": "serialised bytes differ from Model.GraphicsCommand (exhaustive lattice)", "case": toks, "impl": hexs(esc), "model": reps[2 * i]})
+            if reps[2 * i + 1] != "1":
+                ctx.violations.append({"signature": {"class": "escape-does-not-decode-to-fields", "command": "transmit"},
+                                       "what": "the emitted escape does not parse by the protocol's format to exactly the fields that were set", "case": {"tokens": toks, "escape": hexs(esc)}})
+        total += len(shard)
+        shard = []
+
+    for mask in range(1 << n):
+        own = [f for i, (k, f) in enumerate(fields) if k == "T" and mask >> i & 1]
+        pl = [f for i, (k, f) in enumerate(fields) if k == "P" and mask >> i & 1]
+        c = g.transmit(own, pl if pl else None, data=b"")
+        shard.append((cmdcodec.tokens(gc, c), c.to_bytes(tmpl)))
+        if len(shard) >= 100000:
+            flush()
+            if len(ctx.violations) + len(ctx.corr_breaks) > 20:
+                break
+    flush()
+    cov.bump("transmit/exhaustive-presence-lattice-2^21", total)
+    cov.evaluations += total
+
+
 def run(ctx, model):
     cov = common.Coverage("case = (command type, set of present fields, values, payload); non-trivial = at least one optional field set or a non-empty payload; distinct by hash of the token encoding")
     if model is None:
@@ -105,6 +149,8 @@ def run(ctx, model):
                 "what": "the emitted escape does not parse by the protocol's format to exactly the fields that were set (or keys repeat / payload differs)",
                 "case": {"tokens": toks, "escape": hexs(esc)},
             })
+    if not ctx.quick():
+        exhaustive_transmit(ctx, model, tup, cov)
     return cov
 
 
